@@ -99,6 +99,7 @@ def p_assumptions():
 def _siblings(chk):
     import siblings
     siblings.rule_sibling_evaluation(chk, "R06c", "returned")
+    siblings.rule_iteration_stops(chk, "R06e", "returned")
     rule_r06d(chk)
 
 
